@@ -21,6 +21,8 @@ THEOREMS = [
     "SyneTune.C03.decision_follows_report",
     "SyneTune.C03.init_ok",
     "SyneTune.C03.rung_levels_inc",
+    "SyneTune.C03.rung_levels_rf",
+    "SyneTune.C03.constructed_system_wf",
     "SyneTune.C03.promote_quantiles_in_unit_interval",
 ]
 TRUSTED = [
